@@ -95,6 +95,37 @@ var readAPIRoots = []string{
 // ApplySchemas synthesizes schema contracts for one property.
 func ApplySchemas(w *World, schemas []string, prop string) {
 	defer PropagateParamSpecs(w)
+	// guardedby declarations: every function touching the guarded map carries the obligation
+	for _, g := range w.Spec.GuardedBy {
+		if !hasProp(strings.Split(g[3], ","), prop) {
+			continue
+		}
+		for _, f := range w.FnAll {
+			touches := false
+			for _, b := range f.Blocks {
+				for _, ins := range b.Instrs {
+					var m ssa.Value
+					switch x := ins.(type) {
+					case *ssa.MapUpdate:
+						m = x.Map
+					case *ssa.Lookup:
+						m = x.X
+					}
+					if ld, ok := m.(*ssa.UnOp); ok {
+						if fa, ok := ld.X.(*ssa.FieldAddr); ok {
+							if st, key, local := w.localStruct(deref(fa.X.Type())); st != nil && local && key == g[0] && st.Field(fa.Field).Name() == g[1] {
+								touches = true
+							}
+						}
+					}
+				}
+			}
+			if touches {
+				c := w.contractFor(w.FnName(f))
+				c.ExtraProps = append(c.ExtraProps, prop)
+			}
+		}
+	}
 	props := []string{prop}
 	for _, s := range schemas {
 		switch {
